@@ -30,6 +30,7 @@ CONFIG = {
                  "bbs.NewArticleSummaryFromRaw: ArticleID / IsDeleted / Filename of a listing entry and of the answer of CreateArticle / CrossPost (listEntry)",
                  "the #<aidc> reference ptt.crossPostWriteFile prints (aidcText)",
                  "Filename_t.Eq (filenameEq) and the confirmation at the end of cmsys.GetRecord (confirmWith / resolveId / lookupId)",
+                 "cursor texts: bbs.DeserializeArticleIdxStr / LoadGeneralArticles are driven with malformed cursors and answered by the constant `no-crash` (the parse is modelled under C06)",
                  "NOT modelled here: the order of steps inside DoPostArticle (Stampfile, StampfileU, rename) — the designate pass observes its "
                  "result (final name vs. name in the stored line) and the property oracle judges it; cursors `time@id` (C06); the listing's paging (C06)"],
     "assumptions": ["creation times in the proved round trip are 10-digit and below 2^31 (Time4 is a signed 32-bit clock)",
